@@ -401,6 +401,9 @@ func run(t *testing.T, sc Scenario, record bool) *detsim.Outcome {
 	} else if leak != "" {
 		setViol("goroutine-leak", leak)
 	}
+	mu.Lock() // free-running auxiliary runs: nothing may still be appending, but the race detector is the judge there
+	attempts = append([]attempt(nil), attempts...)
+	mu.Unlock()
 	if record {
 		for _, a := range attempts {
 			fmt.Printf("DEBUG attempt op=%d up=%d mode=%s seq=%d\n", a.Op, a.Up, a.Mode, a.Seq)
